@@ -231,6 +231,26 @@ Solutions(G) ==
              IN PerEdge(1) + PerHead(i + 1)
   IN PerHead(1)
 
+\* Forest::ambiguities: one for every parent link with more than one possibility that is
+\* reachable from the result trees (a link is visited once: `visited` is keyed by (root, head),
+\* i.e. by the edge), plus one when the forest has more than one result tree.  The order of the
+\* traversal does not matter: every reachable link is entered exactly once.
+Ambiguities(G) ==
+  LET g == G.g
+      ChOf(ps) == IF ps.k = "t" THEN {} ELSE Range(ps.ch)
+      ChOfEdge(e) == UNION {ChOf(g.edges[e].poss[i]) : i \in 1 .. Len(g.edges[e].poss)}
+      RECURSIVE NRes(_)
+      NRes(i) ==
+        IF i > Len(G.acc) THEN 0
+        ELSE LET be == BackEdges(g, G.acc[i])
+                 RECURSIVE PerEdge(_)
+                 PerEdge(j) == IF j > Len(be) THEN 0 ELSE Len(g.edges[be[j]].poss) + PerEdge(j + 1)
+             IN PerEdge(1) + NRes(i + 1)
+      start == UNION {UNION {ChOfEdge(e) : e \in Range(BackEdges(g, G.acc[i]))} : i \in 1 .. Len(G.acc)}
+      RECURSIVE Close(_)
+      Close(S) == LET N == S \cup UNION {ChOfEdge(e) : e \in S} IN IF N = S THEN S ELSE Close(N)
+  IN Cardinality({e \in Close(start) : Len(g.edges[e].poss) > 1}) + (IF NRes(1) > 1 THEN 1 ELSE 0)
+
 \* all trees of the forest as shapes <<"t", t, at>> / <<"n", p, children>>, trailing
 \* children of empty yield elided; used to check that no tree occurs twice
 RECURSIVE TreesEdge(_, _), TreesPoss(_, _), SeqProduct(_)
